@@ -23,6 +23,10 @@ type vProdCfg struct {
 	closeAfter        int // stop submitting and close after this many messages (0: all of them)
 	class             string // configuration part of the failure class
 	holdFirst         bool // the first produce request is answered only after everything was submitted
+	multiFault        bool // two partitions of one request may meet different faults
+	maxMessageBytes   int   // Producer.MaxMessageBytes (0: default)
+	valueLen          []int // value length of message i (nil: 1 byte); the first byte is the id
+	headersOn         int   // 1+index of a message that carries a record header (0: none)
 }
 
 type vEvent struct {
@@ -59,6 +63,9 @@ func vRunProducer(c vProdCfg) *vProdResult {
 		conf.Producer.Flush.Frequency = 1000000
 	}
 	conf.Producer.Interceptors = c.interceptors
+	if c.maxMessageBytes > 0 {
+		conf.Producer.MaxMessageBytes = c.maxMessageBytes
+	}
 	if c.version != (KafkaVersion{}) {
 		conf.Version = c.version
 	}
@@ -71,6 +78,7 @@ func vRunProducer(c vProdCfg) *vProdResult {
 	cl := vNewCluster(conf, c.brokers, c.parts, c.faults)
 	cl.faultMenu = c.faultMenu
 	cl.holdFirst = c.holdFirst
+	cl.multiFault = c.multiFault
 	cl.release = make(chan struct{})
 	client := &vFakeClient{conf: conf, cl: cl}
 	vOverride("(*Broker).Produce", cl.produce)
@@ -112,7 +120,15 @@ func vRunProducer(c vProdCfg) *vProdResult {
 		if c.partsOf != nil {
 			part = c.partsOf[i]
 		}
-		m := &ProducerMessage{Topic: "t", Partition: part, Value: ByteEncoder{byte(i + 1)}, Metadata: i}
+		val := ByteEncoder{byte(i + 1)}
+		if c.valueLen != nil && c.valueLen[i] > 1 {
+			val = make(ByteEncoder, c.valueLen[i])
+			val[0] = byte(i + 1)
+		}
+		m := &ProducerMessage{Topic: "t", Partition: part, Value: val, Metadata: i}
+		if c.headersOn == i+1 {
+			m.Headers = []RecordHeader{{Key: []byte("h"), Value: []byte("v")}}
+		}
 		res.msgs = append(res.msgs, m)
 		p.Input() <- m
 	}
